@@ -5,8 +5,8 @@
 
 static const uint8_t BIASED[] = {0x00, 0x7f, 0x80, 0xff, 0x81, 0x82, 0x84, 0x1f, 0x3f, 0x20, 0x30, 0xa0, '<', '>', '/', '&', ';'};
 
-const char *TRANSPORT_FAULTS[] = {"bitflip", "overwrite", "truncate", "drop", "dup", "swap", "insert", "lenblow", "splice", "garbage", "token"};
-const int N_TRANSPORT_FAULTS = 11;
+const char *TRANSPORT_FAULTS[] = {"bitflip", "overwrite", "truncate", "drop", "dup", "swap", "insert", "lenblow", "splice", "garbage", "token", "refragment"};
+const int N_TRANSPORT_FAULTS = 12;
 
 // syntax tokens a damaged or hostile stream may contain at any position: lexical corner cases of XML text and of TLV / length octets
 static const char *const XML_TOKENS[] = {"&#;", "&#0;", "&#x0;", "&#x;", "&#xFFFFFFFFF;", "&#4294967296;", "&#1114112;", "&#xD800;", "&nosuch;", "&", "&amp", "&lt;", "<", "</", "</>", "<>", "<!--", "-->",
@@ -15,6 +15,57 @@ static const char *const XML_TOKENS[] = {"&#;", "&#0;", "&#x0;", "&#x;", "&#xFFF
 struct BinTok { const char *p; size_t n; };
 #define BT(s) {s, sizeof(s) - 1}
 static const BinTok BIN_TOKENS[] = {BT("\x00\x00"), BT("\x80"), BT("\x1f\xff\xff\xff\xff\x7f"), BT("\x9f\x81\x00"), BT("\xbf\x1f"), BT("\x24\x80"), BT("\x23\x80\x03\x01\x08"), BT("\x03\x01\x08"), BT("\x03\x00"), BT("\x02\x00"), BT("\x0a\x00"), BT("\x01\x00"), BT("\x05\x01\x00"), BT("\x09\x01\x40"), BT("\x09\x01\x41"), BT("\x09\x01\x42"), BT("\x09\x03\x03\x31\x2c"), BT("\x09\x02\x83\x00"), BT("\x09\x02\x80\x80"), BT("\x06\x01\x80"), BT("\x06\x02\x2a\x86"), BT("\x0d\x01\xff"), BT("\x30\x80"), BT("\x31\x80"), BT("\xa0\x80"), BT("\x04\x81\x00"), BT("\x04\x84\x00\x00\x00\x01\x41"), BT("\x81\x01"), BT("\x88\x7f\xff\xff\xff\xff\xff\xff\xff"), BT("\xc1"), BT("\xc4"), BT("\xbf\xff"), BT("\x40"), BT("\x3f")};
+
+// PER fragmentation (X.691 11.9): a field of 16K units or more travels as [0xC0+m][m x 16K units] ... [final length][rest]. Encoders
+// send the largest fragments first; any other partition of the same contents is just as valid. This finds such a chain of octet
+// units at any bit offset of the stream and re-writes it with a seeded partition (non-canonical, still valid).
+static bool uper_refragment(Bytes &b, Rng &r) {
+    const size_t n = b.size(), F = 16384;
+    if(n < F + 3) return false;
+    unsigned o0 = (unsigned)r.below(8);
+    for(unsigned t = 0; t < 8; t++) {
+        unsigned o = (o0 + t) & 7;
+        Bytes view; size_t nv = o ? n - 1 : n; view.resize(nv);
+        for(size_t i = 0; i < nv; i++) view[i] = o ? (uint8_t)((b[i] << o) | (b[i + 1] >> (8 - o))) : b[i];
+        for(size_t i = 0; i + F + 2 <= nv; i++) {
+            uint8_t v = view[i];
+            if(v < 0xC1 || v > 0xC4) continue;
+            // parse the chain
+            size_t pos = i; Bytes content; bool ok = true; unsigned nfrag = 0;
+            for(;;) {
+                if(pos >= nv) { ok = false; break; }
+                uint8_t d = view[pos];
+                if(d >= 0xC1 && d <= 0xC4) { size_t len = (size_t)(d - 0xC0) * F; if(pos + 1 + len > nv) { ok = false; break; } content.insert(content.end(), view.begin() + pos + 1, view.begin() + pos + 1 + len); pos += 1 + len; nfrag++; continue; }
+                size_t fin, hdr;
+                if(d < 0x80) { fin = d; hdr = 1; } else if(d < 0xC0 && pos + 1 < nv) { fin = ((size_t)(d & 0x3f) << 8) | view[pos + 1]; hdr = 2; } else { ok = false; break; }
+                if(pos + hdr + fin > nv) { ok = false; break; }
+                content.insert(content.end(), view.begin() + pos + hdr, view.begin() + pos + hdr + fin); pos += hdr + fin;
+                break;
+            }
+            if(!ok || !nfrag) continue;
+            // a seeded partition: fragments of 1..4 x 16K in any order, then the rest
+            Bytes nw; size_t off = 0, total = content.size();
+            while(total - off >= F) {
+                size_t maxm = std::min<size_t>(4, (total - off) / F), m = 1 + (size_t)r.below(maxm);
+                nw.push_back((uint8_t)(0xC0 + m)); nw.insert(nw.end(), content.begin() + off, content.begin() + off + m * F); off += m * F;
+            }
+            size_t rest = total - off;
+            if(rest < 0x80) nw.push_back((uint8_t)rest); else { nw.push_back((uint8_t)(0x80 | (rest >> 8))); nw.push_back((uint8_t)(rest & 0xff)); }
+            nw.insert(nw.end(), content.begin() + off, content.end());
+            Bytes view2(view.begin(), view.begin() + i); view2.insert(view2.end(), nw.begin(), nw.end()); view2.insert(view2.end(), view.begin() + pos, view.end());
+            if(view2 == view) continue;
+            // shift back
+            Bytes out; unsigned acc = 0; int nb = 0;
+            auto put = [&](unsigned val, int bits) { acc = (acc << bits) | (val & ((1u << bits) - 1)); nb += bits; while(nb >= 8) { out.push_back((uint8_t)(acc >> (nb - 8))); nb -= 8; acc &= (1u << nb) - 1; } };
+            if(o) put((unsigned)(b[0] >> (8 - o)), (int)o);
+            for(uint8_t x : view2) put(x, 8);
+            if(o) put((unsigned)b[n - 1], (int)(8 - o));
+            b.swap(out);
+            return true;
+        }
+    }
+    return false;
+}
 
 static void seg(Rng &r, size_t n, size_t &a, size_t &len) {
     a = n ? (size_t)r.below(n) : 0;
@@ -47,6 +98,7 @@ void transport_damage(Bytes &b, Rng &r, const Bytes *other, std::vector<std::str
                   else { size_t cut = (size_t)r.below(n + 1); size_t oc = (size_t)r.below(other->size()); b.resize(cut); b.insert(b.end(), other->begin() + oc, other->end()); break; } }
                 /* fall through */
         case 9: { size_t k = 1 + (size_t)r.below(24); b.clear(); for(size_t i = 0; i < k; i++) b.push_back((uint8_t)r.below(256)); break; }
+        case 11: if(!uper_refragment(b, r)) continue; break;
         case 10: { // a syntax token at a seeded position (inserted, or written over what is there)
                   bool xml = n && (b[0] == '<' || b[0] == ' ' || b[0] == '\n');
                   const char *t; size_t tl;
